@@ -339,6 +339,37 @@ impl Engine for C13 {
                 t.set_meta("size", "large");
             }
         }
+        // 1 message in 40 carries, in its unprotected header, a value nested right at the CBOR
+        // parser's depth limit (entry points must agree there too)
+        if t.meta("size").is_none() && rng.chance(1, 40) {
+            let mty = ["CoseSign1", "CoseMac0", "CoseEncrypt0", "CoseSign", "CoseMac", "CoseEncrypt", "CoseSignature", "CoseRecipient"][rng.below(8)];
+            let mtag = TAGGABLE.contains(&mty) && rng.bool();
+            let it = gen_item(&mut rng, mty, &GenCfg::small());
+            let mut a = it.as_array().cloned().unwrap_or_default();
+            let d = rng.range(246, 258);
+            let nk = rng.below(3);
+            let mut v = Item::uint(0);
+            for _ in 0..d {
+                v = match nk {
+                    0 => Item::array(vec![v]),
+                    1 => Item::map(vec![(Item::uint(0), v)]),
+                    _ => Item::tag(1, v),
+                };
+            }
+            if a.len() >= 2 {
+                a[1] = Item::map(vec![(Item::uint(99), v)]);
+                let mut body = Item::array(a);
+                if mtag {
+                    if let Some(tg) = reg_tag(mty) {
+                        body = Item::tag(tg, body);
+                    }
+                }
+                msg = refcbor::encode(&body);
+                t.set_meta("type", mty);
+                t.set_meta("form", if mtag { "tagged" } else { "untagged" });
+                t.set_meta("size", "nested-at-limit");
+            }
+        }
         // a quarter of the (small) messages travel in a non-canonical but valid encoding: wide heads,
         // indefinite-length strings / arrays / maps (a relay that re-serialises)
         if t.meta("size").is_none() && rng.chance(1, 4) {
